@@ -67,7 +67,7 @@ CHECKS = {
 
  "C04": dict(engine="E3-crash", cat="fault_enumeration", ref="DESIGN.md §5 C04, §4 E3",
    technique="exhaustive crash-point enumeration: strace of the real write paths, every syscall prefix materialised as process-kill / power-loss / torn-write images, each reopened by a fresh process and compared with the acknowledged history",
-   text="Five scripted histories over the real write paths (Store API; 12 KiB frames whose batches exceed fjall's 8 KiB buffer; the HTTP routes with CAS bodies; forced memtable flushes with segment files, journal rotation and manifest renames; a duplicate remove / import arriving while the first one is between commit and fsync) are traced at system-call granularity. For every prefix of the store-directory mutations from the first acknowledged operation on, and for the moment right after every acknowledgement, the process-kill image and - wherever the journal holds unsynced bytes - the power-loss image and torn tails of the last unsynced write are reopened: the store must open, every acknowledged append/remove/import must be reflected, the operation in flight must be all-or-nothing across by-id / all-stream / context-stream / head, the registry must equal the stored registrations, and on kill images every visible hash must have its content. Second generation: process-kill images taken inside an import / remove are reopened by a second traced process that sends the same request again; kill and power-loss images after its acknowledgement must contain the operation. Third generation (fault during recovery): process-kill images are reopened by a traced process that only recovers; every prefix of the recovery's own file-system mutations yields a kill image and a power-loss image that a third process must open and that must show the same acknowledged history.",
+   text="Five scripted histories over the real write paths (Store API; 12 KiB frames whose batches exceed fjall's 8 KiB buffer; the HTTP routes with CAS bodies; forced memtable flushes with segment files, journal rotation and manifest renames; a duplicate remove / import arriving while the first one is between commit and fsync, then an import that replaces a stored frame under its id and an import the store refuses under a stored id) are traced at system-call granularity. For every prefix of the store-directory mutations from the first acknowledged operation on, and for the moment right after every acknowledgement, the process-kill image and - wherever the journal holds unsynced bytes - the power-loss image and torn tails of the last unsynced write are reopened: the store must open, every acknowledged append/remove/import must be reflected, the operation in flight must be all-or-nothing across by-id / all-stream / context-stream / head, the registry must equal the stored registrations, and on kill images every visible hash must have its content. Second generation: process-kill images taken inside an import / remove are reopened by a second traced process that sends the same request again; kill and power-loss images after its acknowledgement must contain the operation. Third generation (fault during recovery): process-kill images are reopened by a traced process that only recovers; every prefix of the recovery's own file-system mutations yields a kill image and a power-loss image that a third process must open and that must show the same acknowledged history.",
    note="Trusted: strace's rendering (checked: the interpreted final state equals the real directory byte for byte), fjall's recovery code is the subject not the model. Power loss is modelled as loss of unsynced journal suffixes and torn tails, not arbitrary sector reordering; directory entries are kept; crash points inside the first creation of the store directory are not enumerated; double faults in the kill-reopen-retry and kill-reopen-kill forms (first fault a process kill)."),
 
  "C15": dict(engine="E5-lifecycle", cat="model_checking", ref="DESIGN.md §5 C15",
